@@ -52,6 +52,8 @@ structure DataWorld (V : Type) extends World V where
   reservedKey : V → Bool
   /-- `value.get(discriminator) in discriminator_map` → the selected type, field.py:1042-1044 -/
   discLookup : Nat → V → M (Option Ty)
+  /-- the value already is an instance of one of the branches of the field's discriminated union (field.py:1071) -/
+  isBranchInstance : Nat → V → Bool
   noInput : Nat → V → Bool
   /-- `a != b` on user values -/
   neq : V → V → M Bool
@@ -81,47 +83,49 @@ def PV.ofOption : Option V → PV V
   | some v => .val v
   | none => .unprovided
 
-/-- the conversion proper, field.py:1078-1111 -/
-def fieldConvert (W : DataWorld V) (o : Opts) (f : FieldDecl V) (t : Ty) (v : V) (asAbsent : Bool) : M (PV V) := do
-  enterCheck W.toWorld f.id
-  tryExcept (do let y ← isolated (W.conv t v); pure (PV.val y)) (fun e => do
-    let err := wrap Site.fieldValue e (some f.id)
-    match f.policy o with
-    | .exclude =>
-      if f.isRequired o then do
-        -- a required field cannot be excluded
-        handleError o err
-        pure (PV.ofOption f.default)
-      else do
-        W.warn Site.fieldValue
-        if asAbsent then pure .excluded      -- the caller handles the field as one that was not given
-        else pure (PV.ofOption f.default)
-    | .preserve => do W.warn Site.fieldValue; pure (.val v)
-    | .throw => do
+/-- `_invalid_value(error, raw, context, excluded_as_absent)` (field.py:1140-1160): the field's on_error /
+options.invalid_values decide what an invalid value of this field becomes; `raw` is the value as it was given -/
+def invalidValue (W : DataWorld V) (o : Opts) (f : FieldDecl V) (err : Exc) (raw : V) (asAbsent : Bool) : M (PV V) :=
+  match f.policy o with
+  | .exclude =>
+    if f.isRequired o then do
+      -- a required field cannot be excluded
       handleError o err
-      pure .unprovided)
+      pure (PV.ofOption f.default)
+    else do
+      W.warn Site.fieldValue
+      if asAbsent then pure .excluded      -- the caller handles the field as one that was not given
+      else pure (PV.ofOption f.default)
+  | .preserve => do W.warn Site.fieldValue; pure (.val raw)
+  | .throw => do
+    handleError o err
+    pure .unprovided
+
+/-- the conversion proper, field.py:1125-1138 -/
+def fieldConvert (W : DataWorld V) (o : Opts) (f : FieldDecl V) (t : Ty) (v raw : V) (asAbsent : Bool) : M (PV V) := do
+  enterCheck W.toWorld f.id
+  tryExcept (do let y ← isolated (W.conv t v); pure (PV.val y)) (fun e =>
+    invalidValue W o f (wrap Site.fieldValue e (some f.id)) raw asAbsent)
 
 def parseValue (W : DataWorld V) (L : Legacy) (o : Opts) (f : FieldDecl V) (v : V) (asAbsent : Bool := false) :
     M (PV V) := do
-  if f.disc && !W.isNone v then
-    -- field.py:1041-1072
-    let d ← if W.isMapping v then pure (some v)
-      else tryExcept (do let y ← W.toDict v; pure (some y)) (fun e => do
-        handleError o (wrap Site.fieldDiscDict e (some f.id)); pure none)
+  -- an instance of one of the branches of a discriminated union is taken like any other value of a member type
+  if f.disc && !W.isBranchInstance f.id v && !W.isNone v then
+    -- field.py:1075-1118: to_dict failure and "no branch selected" are invalid values of the field (policy applies)
+    let d ← if W.isMapping v then pure (Except.ok v)
+      else tryExcept (do let y ← W.toDict v; pure (Except.ok y)) (fun e => pure (Except.error e))
     match d with
-    | none => pure .unprovided
-    | some d => do
+    | .error e => invalidValue W o f (wrap Site.fieldDiscDict e (some f.id)) v asAbsent
+    | .ok d => do
       let sel ← if L.discLookup then W.discLookup f.id d
         else tryExcept (W.discLookup f.id d) (fun _ => pure none)
       match sel with
-      | some t => fieldConvert W o f t d asAbsent
-      | none => do
-        handleError o (mk K.discriminator Site.discMismatch (some f.id))
-        pure .unprovided
+      | some t => fieldConvert W o f t d v asAbsent
+      | none => invalidValue W o f (mk K.discriminator Site.discMismatch (some f.id)) v asAbsent
   else
     match f.ty with
     | none => pure (.val v)
-    | some t => fieldConvert W o f t v asAbsent
+    | some t => fieldConvert W o f t v v asAbsent
 
 /-! ### BaseParser.parse_addition — base.py:390-421 -/
 
@@ -459,8 +463,9 @@ def posArgs (W : DataWorld V) (L : Legacy) (o : Opts) (F : FuncDecl V) :
     else
       match (F.positional[i]?).join with
       | some f =>
+        -- bound by position, whether the value is taken or (no_input) replaced by the default (func.py:655-657)
         if W.noInput f.id x then
-          posArgs W L o F xs (i + 1) (match f.default with | some d => args ++ [d] | none => args) keys
+          posArgs W L o F xs (i + 1) (match f.default with | some d => args ++ [d] | none => args) (keys ++ [f.id])
         else do
           let r ← parseValue W L o f x        -- excluded_as_absent=False: an excluded value is its default
           posArgs W L o F xs (i + 1) (match r with | .val y => args ++ [y] | _ => args) (keys ++ [f.id])
@@ -485,7 +490,8 @@ def posOnlyMissing (o : Opts) (F : FuncDecl V) : List (Nat × FieldDecl V) → L
     if keys.contains f.id then posOnlyMissing o F fs args keys
     else if f.isRequired o then do
       handleError o (mk K.absence Site.posAbsence (some f.id))
-      posOnlyMissing o F fs args keys
+      -- reported here; the keywords are parsed without it like any other positional-only field (func.py:683-686)
+      posOnlyMissing o F fs args (keys ++ [f.id])
     else
       let args' := match f.default with
         | some d =>
@@ -494,9 +500,21 @@ def posOnlyMissing (o : Opts) (F : FuncDecl V) : List (Nat × FieldDecl V) → L
         | none => args
       posOnlyMissing o F fs args' (keys ++ [f.id])
 
-/-- func.py:604-665 -/
+/-- an ill-formed CALL: a parameter bound by position is given again by keyword, under any key it accepts
+(func.py:627-642).  Python's own answer is `TypeError: f() got multiple values for argument`; utype gives the same,
+before either lookup strategy walks the keywords. -/
+def doubleBound (F : FuncDecl V) (args : List V) (kwargs : List (Nat × V)) : Bool :=
+  kwargs.any fun (key, _) =>
+    match getField F.parser key with
+    | some f => !f.posOnly &&
+        (((List.range args.length).filterMap (fun i => (F.positional[i]?).join)).any (fun g => g.id == f.id))
+    | none => false
+
+/-- func.py:615-700 -/
 def parseParams (W : DataWorld V) (L : Legacy) (o : Opts) (F : FuncDecl V) (args : List V)
     (kwargs : List (Nat × V)) : M (List V × List (Nat × V)) := do
+  -- the binding error of the call itself: not a parse failure (nothing has been parsed yet), the caller's TypeError
+  if doubleBound F args kwargs then raise (builtinExc K.typeError) else
   let (pa, keys) ← posArgs W L o F args 0 [] []
   let (pa, keys) ← posOnlyMissing o F F.posOnly pa keys
   let kw ← parseData W L o F.parser keys kwargs
